@@ -12,6 +12,7 @@ EXTENDS Autograd
 MC_LeafVals == {LitT(<<2, 2>>, <<1, -2, 4, 3>>), LitT(<<2>>, <<5, -1>>)}
 MC_UnOps == {<<"maxalong", [dim |-> 0]>>, <<"avgalong", [dim |-> 0]>>, <<"varalong", [dim |-> 0]>>, <<"reshape", [shape |-> <<4>>]>>,
              <<"unsqueeze", [dim |-> 0]>>, <<"broadcast", [shape |-> <<2, 2, 2>>]>>, <<"pow", [k |-> Two]>>, <<"flatten", [dim |-> 0]>>}
+MC_CtorShapes == {}
 MC_BinOps == {<<"dot", NoPar>>, <<"patch", [index |-> <<<<0, 1>>>>]>>, <<"div", NoPar>>, <<"sub", NoPar>>}
 
 Bounded == \A i \in Ids : /\ AllLiteral(T[i].val.data) /\ AllLiteral(T[i].grad) /\ AllLiteral(T[i].gradA)
